@@ -518,7 +518,41 @@ def _role_score(fn: ast.FunctionDef, ref_exprs: set, t: str, x: str) -> int:
                     y.id = x
             if ast.unparse(c) in ref_exprs and ast.unparse(h) not in ref_exprs:
                 n += 1
+            elif isinstance(c, ast.BinOp) and isinstance(c.left, ast.Name) and c.left.id == x and isinstance(c.right, ast.Constant) \
+                    and ast.unparse(ast.AugAssign(target=ast.Name(id=x, ctx=ast.Store()), op=c.op, value=c.right)) in ref_exprs:
+                n += 1                  # `t & K` where the reference updates x in place (`x &= K`)
+            elif isinstance(c, ast.Compare):
+                # a comparison also counts in its mirrored or negated spelling (`x != 0` for the reference's `x == 0`)
+                from . import canon as _cn
+                try:
+                    ks = {_cn._key(c), _cn._key(_cn.negate(c))}
+                    hs = {_cn._key(h), _cn._key(_cn.negate(h))}
+                except RecursionError:
+                    continue
+                if ks & _ref_keys(ref_exprs) and not (hs & _ref_keys(ref_exprs)):
+                    n += 1
     return n
+
+
+_REF_KEYS_CACHE: dict = {}
+
+
+def _ref_keys(ref_exprs) -> set:
+    """Order-insensitive keys of the comparisons among the reference expressions (cached per expression set)."""
+    k = id(ref_exprs)
+    if k in _REF_KEYS_CACHE and _REF_KEYS_CACHE[k][0] is ref_exprs:
+        return _REF_KEYS_CACHE[k][1]
+    from . import canon as _cn
+    out = set()
+    for t in ref_exprs:
+        try:
+            e = ast.parse(t, mode="eval").body
+        except SyntaxError:
+            continue
+        if isinstance(e, ast.Compare):
+            out.add(_cn._key(e))
+    _REF_KEYS_CACHE[k] = (ref_exprs, out)
+    return out
 
 
 def _rename_locals(fn: ast.FunctionDef, template, ref_fn=None) -> None:
@@ -1549,8 +1583,8 @@ def _extract_toward_reference(fn: ast.FunctionDef, ref_fn: dict, known: set) -> 
                 events, reached = _eval_events(scope, hits[0])
                 cond = [n for n in ast.walk(scope) if (isinstance(n, ast.IfExp) and any(y is hits[0] for b in (n.body, n.orelse) for y in ast.walk(b)))
                         or (isinstance(n, ast.BoolOp) and any(y is hits[0] for v in n.values[1:] for y in ast.walk(v)))]
-                if not reached or cond or any(k == "call" for k, _e in events):
-                    break
+                if not reached or (cond and any(isinstance(z, ast.Call) for z in ast.walk(values[0]))) or any(k == "call" for k, _e in events):
+                    break               # (an expression without calls may be evaluated early even where the original evaluates it conditionally)
                 new_assign = ast.copy_location(ast.Assign(targets=[ast.Name(id=x, ctx=ast.Store())], value=values[0]), st)
                 if len(hits) > 1:
                     # every occurrence must see the value computed here
